@@ -6,7 +6,7 @@ Model of how the linker accounts, in the metafile, for the bytes of one output f
 * `generateChunkJS` / `generateChunkCSS`, the part that joins the compile results into the chunk text
   ("Concatenate the generated JavaScript chunks together", "Concatenate the generated CSS chunks together"):
   the `// path` / `/* path */` comments, the newline in front of them, `prevFileNameComment`,
-  `OmitFromSourceMapsAndMetafile`, `metaOrder` / `metaBytes` (JS) and the one-entry-per-compile-result rule (CSS);
+  `OmitFromSourceMapsAndMetafile`, `metaOrder` / `metaBytes` (JS) and `metaOrder` / `metaCounts` (CSS);
 * `breakJoinerIntoPieces` (with its "no placeholder" shortcut over the parts of the joiner),
   `breakOutputIntoPieces` on the whole chunk and on every slice of every input;
 * the lazily finished metadata (`jsonMetadataChunkCallback`): `accurateFinalByteCount` summed per input, the
@@ -249,10 +249,30 @@ def jsonTailJS (min : Bool) (c : Cfg) (f : Kind → Nat → Bytes) (nameOf : Nat
   commaJoin (m.map fun kv => jsonEntry min (nameOf kv.1, inputCount c f kv.2))
     ++ (if m.isEmpty then [] else mrw min "\n      ") ++ jsonBytes min size
 
-/-- CSS: one entry per compile result that has a source index; the closing indentation depends on
-`len(compileResults)` -/
+/-- `metaOrder` and `metaCounts` of the CSS callback in one association list (keys in order of first appearance) -/
+abbrev CountMap := List (Nat × Nat)
+
+/-- `if _, ok := metaCounts[s]; !ok { metaOrder = append(metaOrder, s) }; metaCounts[s] += n` -/
+def countAdd : CountMap → Nat → Nat → CountMap
+  | [], s, n => [(s, n)]
+  | (k, v) :: m, s, n => if k = s then (k, v + n) :: m else (k, v) :: countAdd m s n
+
+/-- the first loop of the CSS `jsonMetadataChunkCallback`: compile results without a source index are skipped,
+the counts of the others are summed per source index -/
+def cssCounts (c : Cfg) (f : Kind → Nat → Bytes) : CountMap → List CRC → CountMap
+  | m, [] => m
+  | m, cr :: rest =>
+    match cr.src with
+    | none => cssCounts c f m rest
+    | some s => cssCounts c f (countAdd m s (sliceCount c f cr.code)) rest
+
+/-- the (source, bytesInOutput) pairs of a CSS output, in the order of the JSON text: one per source index
+(a file that is in the chunk more than once has a single entry) -/
+def entriesCSS (c : Cfg) (f : Kind → Nat → Bytes) (crs : List CRC) : List (Nat × Nat) := cssCounts c f [] crs
+
+/-- CSS: one entry per source index in `metaOrder`; the closing indentation depends on `len(compileResults)` -/
 def jsonTailCSS (min : Bool) (c : Cfg) (f : Kind → Nat → Bytes) (nameOf : Nat → Bytes) (crs : List CRC) (size : Nat) : Bytes :=
-  commaJoin (crs.filterMap fun cr => cr.src.map fun s => jsonEntry min (nameOf s, sliceCount c f cr.code))
+  commaJoin ((entriesCSS c f crs).map fun e => jsonEntry min (nameOf e.1, e.2))
     ++ (if crs.isEmpty then [] else mrw min "\n      ") ++ jsonBytes min size
 
 /-- one import of the output as the printers record it -/
@@ -311,10 +331,6 @@ def jsonRead (entries : List (Nat × Nat)) (s : Nat) : Option Nat :=
 /-- the (source, bytesInOutput) pairs of a JavaScript output, in the order of the JSON text -/
 def entriesJS (c : Cfg) (f : Kind → Nat → Bytes) (m : MetaMap) : List (Nat × Nat) :=
   m.map fun kv => (kv.1, inputCount c f kv.2)
-
-/-- the (source, bytesInOutput) pairs of a CSS output, in the order of the JSON text -/
-def entriesCSS (c : Cfg) (f : Kind → Nat → Bytes) (crs : List CRC) : List (Nat × Nat) :=
-  crs.filterMap fun cr => cr.src.map fun s => (s, sliceCount c f cr.code)
 
 -- ---------------------------------------------------------------- the whole metafile (internal/bundler/bundler.go)
 
